@@ -129,7 +129,17 @@ func runC08(c *core.Ctx) *core.Outcome {
 	w.UseBackend()
 	defer w.Close()
 	s := w.NewSession("s1", mode != 0)
-	nreq := t.Range(2, 16)
+	maxReq := 16
+	if c.Tier == "thorough" {
+		maxReq = 24
+	}
+	nreq := t.Range(2, maxReq)
+	if t.Chance(1, 5) {
+		if err := w.UseDbResource(); err != nil {
+			panic("cannot build DbResource: " + err.Error())
+		}
+		o.Probes["db_resource_stack"]++
+	}
 	junk := 0
 	for i := 0; i < nreq; i++ {
 		t.Begin("request")
